@@ -50,6 +50,7 @@ type indVariant struct {
 	inv      string
 	length   string
 	wantHold bool
+	next     string // "" = Next
 }
 
 // runInductive runs the obligations, probes and design changes of one Apalache-typed module.
@@ -67,7 +68,11 @@ func runInductive(r *Reporter, module string, vs []indVariant) {
 		}
 		dir := newWorkDir(fmt.Sprintf("%s%d", module, i))
 		must(os.WriteFile(filepath.Join(dir, module+".tla"), []byte(text), 0o644))
-		held, _, err := apalache(dir, module+".tla", "--init="+v.init, "--inv="+v.inv, "--length="+v.length)
+		args := []string{"--init=" + v.init, "--inv=" + v.inv, "--length=" + v.length}
+		if v.next != "" {
+			args = append(args, "--next="+v.next)
+		}
+		held, _, err := apalache(dir, module+".tla", args...)
 		os.RemoveAll(dir)
 		if err != nil {
 			inconclusive("%s %s: %v", propID, v.name, err)
@@ -92,17 +97,24 @@ func runInductive(r *Reporter, module string, vs []indVariant) {
 func init() {
 	register("busind", func(r *Reporter) {
 		runInductive(r, "BusInd", []indVariant{
-			{"Init => IndInv", nil, "Init", "IndInv", "0", true},
-			{"IndInv /\\ Next => IndInv'", nil, "IndInit", "IndInv", "1", true},
-			{"probe: IndInit admits a full bus", nil, "IndInit", "ProbeNotFull", "0", false},
-			{"probe: an item reaches the output side", nil, "Init", "ProbeNoMove", "3", false},
-			{"design change: Add without the capacity guard", [][2]string{{"/\\ Len(buffer) # BufferLen /\\ ctr < MaxTag", "/\\ ctr < MaxTag"}}, "IndInit", "IndInv", "1", false},
+			{"Init => IndInv", nil, "Init", "IndInv", "0", true, ""},
+			{"IndInv /\\ Next => IndInv'", nil, "IndInit", "IndInv", "1", true, ""},
+			{"probe: IndInit admits a full bus", nil, "IndInit", "ProbeNotFull", "0", false, ""},
+			{"probe: an item reaches the output side", nil, "Init", "ProbeNoMove", "3", false, ""},
+			{"design change: Add without the capacity guard", [][2]string{{"/\\ Len(buffer) # BufferLen /\\ ctr < MaxTag", "/\\ ctr < MaxTag"}}, "IndInit", "IndInv", "1", false, ""},
 			{"design change: Connect moves items in the cycle they were added", [][2]string{
 				{"i <= n => buffer[i].avail <= cycle", "i <= n => buffer[i].avail <= cycle + 1"},
-				{"buffer[n + 1].avail > cycle)", "buffer[n + 1].avail > cycle + 1)"}}, "IndInit", "IndInv", "1", false},
+				{"buffer[n + 1].avail > cycle)", "buffer[n + 1].avail > cycle + 1)"}}, "IndInit", "IndInv", "1", false, ""},
 			{"design change: Connect puts moved items before the visible ones", [][2]string{
-				{"queue' = queue \\o FunAsSeq([i \\in 1 .. BufferLen |-> [t |-> buffer[i].t, at |-> buffer[i].at]], n, BufferLen)",
-					"queue' = FunAsSeq([i \\in 1 .. BufferLen |-> [t |-> buffer[i].t, at |-> buffer[i].at]], n, BufferLen) \\o queue"}}, "IndInit", "IndInv", "1", false},
+				{"queue' = queue \\o FunAsSeq([i \\in 1 .. BufferLen |-> [t |-> buffer[i].t, at |-> buffer[i].at, rev |-> buffer[i].rev]], n, BufferLen)",
+					"queue' = FunAsSeq([i \\in 1 .. BufferLen |-> [t |-> buffer[i].t, at |-> buffer[i].at, rev |-> buffer[i].rev]], n, BufferLen) \\o queue"}}, "IndInit", "IndInv", "1", false, ""},
+			// undisciplined producers (Add without CanAdd, Revert): at most once, and a cycle later for added items
+			{"undisciplined: Init => IndInvU", nil, "Init", "IndInvU", "0", true, "NextU"},
+			{"undisciplined: IndInvU /\\ NextU => IndInvU'", nil, "IndInitU", "IndInvU", "1", true, "NextU"},
+			{"probe: a reverted item becomes visible in the same cycle", nil, "Init", "ProbeNoRevVisible", "2", false, "NextU"},
+			{"design change (undisciplined): Connect moves items in the cycle they were added", [][2]string{
+				{"i <= n => buffer[i].avail <= cycle\n            /\\ (n = Min(Len(buffer), QueueLen - Len(queue)) \\/ buffer[n + 1].avail > cycle)\n            /\\ queue' = queue \\o FunAsSeq([i \\in 1 .. BufferLen + 2",
+					"i <= n => buffer[i].avail <= cycle + 1\n            /\\ (n = Min(Len(buffer), QueueLen - Len(queue)) \\/ buffer[n + 1].avail > cycle + 1)\n            /\\ queue' = queue \\o FunAsSeq([i \\in 1 .. BufferLen + 2"}}, "IndInitU", "IndInvU", "1", false, "NextU"},
 		})
 	})
 	// lruind: the key-value LRU design of spec/KVLru.tla (C13, second half): NoDup /\ WithinCap inductive,
@@ -110,26 +122,26 @@ func init() {
 	register("lruind", func(r *Reporter) {
 		put := "THEN Tail(order) \\o <<k>> ELSE Refresh(k)"
 		runInductive(r, "KVLruInd", []indVariant{
-			{"Init => IndInv /\\ Step", nil, "Init", "IndStep", "0", true},
-			{"IndInv /\\ Next => (IndInv /\\ Step)'", nil, "IndInit", "IndStep", "1", true},
-			{"probe: IndInit admits a full cache", nil, "IndInit", "ProbeNotFull", "0", false},
-			{"probe: a step displaces a key", nil, "IndInit", "ProbeNoDisplace", "1", false},
-			{"design change: Put displaces the most recently used key", [][2]string{{put, "THEN SubSeq(order, 1, Cap - 1) \\o <<k>> ELSE Refresh(k)"}}, "IndInit", "IndStep", "1", false},
-			{"design change: Get does not refresh the key", [][2]string{{"order' = IF Has(k) THEN Refresh(k) ELSE order", "order' = order"}}, "IndInit", "IndStep", "1", false},
-			{"design change: Put of a present key appends without removing", [][2]string{{put, "THEN Tail(order) \\o <<k>> ELSE order \\o <<k>>"}}, "IndInit", "IndStep", "1", false},
+			{"Init => IndInv /\\ Step", nil, "Init", "IndStep", "0", true, ""},
+			{"IndInv /\\ Next => (IndInv /\\ Step)'", nil, "IndInit", "IndStep", "1", true, ""},
+			{"probe: IndInit admits a full cache", nil, "IndInit", "ProbeNotFull", "0", false, ""},
+			{"probe: a step displaces a key", nil, "IndInit", "ProbeNoDisplace", "1", false, ""},
+			{"design change: Put displaces the most recently used key", [][2]string{{put, "THEN SubSeq(order, 1, Cap - 1) \\o <<k>> ELSE Refresh(k)"}}, "IndInit", "IndStep", "1", false, ""},
+			{"design change: Get does not refresh the key", [][2]string{{"order' = IF Has(k) THEN Refresh(k) ELSE order", "order' = order"}}, "IndInit", "IndStep", "1", false, ""},
+			{"design change: Put of a present key appends without removing", [][2]string{{put, "THEN Tail(order) \\o <<k>> ELSE order \\o <<k>>"}}, "IndInit", "IndStep", "1", false, ""},
 		})
 	})
 	// lcind: the line cache design of spec/LineCache.tla (C13, first half) with line contents abstracted
 	// to versions (spec/LineCacheInd.tla).
 	register("lcind", func(r *Reporter) {
 		runInductive(r, "LineCacheInd", []indVariant{
-			{"Init => IndInv /\\ Step", nil, "Init", "IndStep", "0", true},
-			{"IndInv /\\ Next => (IndInv /\\ Step)'", nil, "IndInit", "IndStep", "1", true},
-			{"probe: IndInit admits a pending victim", nil, "IndInit", "ProbeNotOver", "0", false},
-			{"probe: a Push displaces a line", nil, "IndInit", "ProbeNoDisplace", "1", false},
-			{"design change: Push displaces the most recently used line", [][2]string{{"\\o SubSeq(lines, 1, NumLines - 1)", "\\o SubSeq(lines, 2, NumLines)"}}, "IndInit", "IndStep", "1", false},
-			{"design change: Write leaves the resident copy stale", [][2]string{{"lines' = [lines EXCEPT ![i] = [base |-> b, ver |-> ctr]]", "lines' = lines"}}, "IndInit", "IndStep", "1", false},
-			{"design change: a hit does not make the line most recent", [][2]string{{"lines' = <<lines[i]>> \\o Without(b)", "lines' = lines"}}, "IndInit", "IndStep", "1", false},
+			{"Init => IndInv /\\ Step", nil, "Init", "IndStep", "0", true, ""},
+			{"IndInv /\\ Next => (IndInv /\\ Step)'", nil, "IndInit", "IndStep", "1", true, ""},
+			{"probe: IndInit admits a pending victim", nil, "IndInit", "ProbeNotOver", "0", false, ""},
+			{"probe: a Push displaces a line", nil, "IndInit", "ProbeNoDisplace", "1", false, ""},
+			{"design change: Push displaces the most recently used line", [][2]string{{"\\o SubSeq(lines, 1, NumLines - 1)", "\\o SubSeq(lines, 2, NumLines)"}}, "IndInit", "IndStep", "1", false, ""},
+			{"design change: Write leaves the resident copy stale", [][2]string{{"lines' = [lines EXCEPT ![i] = [base |-> b, ver |-> ctr]]", "lines' = lines"}}, "IndInit", "IndStep", "1", false, ""},
+			{"design change: a hit does not make the line most recent", [][2]string{{"lines' = <<lines[i]>> \\o Without(b)", "lines' = lines"}}, "IndInit", "IndStep", "1", false, ""},
 		})
 	})
 }
